@@ -939,6 +939,13 @@ run_real_case(const std::string& name, const Geo& g, const Data& d, RunCfg c, vh
           probe->get_prior_ptr()->compute_gradient(*pimg, *image);
           pg = to_vec(*pimg);
         }
+      if (!all_finite(gps) || !all_finite(sens) || !all_finite(pg))
+        { // float overflow in what the objective function / prior deliver (images near FLT_MAX): no rational data for the
+          // model, nothing the property speaks about; the case ends here like a case with a non-finite image
+          g_cov["real_nonfinite_data"]++;
+          finite = false;
+          break;
+        }
       const std::size_t nfu = A.fu ? A.fu->inputs.size() : 0, nfi = A.fi ? A.fi->inputs.size() : 0;
       // the real sub-iteration
       A.recon->set_start_subiteration_num(k);
